@@ -58,8 +58,13 @@ def spell(url, form):
 
 @st.composite
 def dataset_cases(draw):
+    # legacy_some: only some shards of the scale are in the legacy layout;
+    # stale_legacy: some shards are legacy, the others are current .shard
+    # files that have left-over (valid, outdated) .index / .data files of an
+    # earlier conversion beside them - the .shard file is the one that counts
     kind = draw(st.sampled_from(["plain_flat", "plain_deep", "shard",
-                                 "shard", "legacy", "foreign", "mixed"]))
+                                 "shard", "legacy", "foreign", "mixed",
+                                 "legacy_some", "stale_legacy"]))
     c = draw(sc.shard_cases(max_grid=4, min_chunks=1))
     c["kind"] = kind
     c["gzip"] = draw(st.booleans())
@@ -115,10 +120,24 @@ def build_dataset(case, root):
                                      chunks, legacy=case["seed"] % 2 == 0)
         return d, truth
     sc.store_all(d, case, order, "in memory")
-    if kind == "legacy":
+    if kind in ("legacy", "legacy_some", "stale_legacy"):
         ilen = 16 * 2 ** params["minishard_bits"]
         sdir = os.path.join(d, sc.KEY)
-        for fn in sorted(os.listdir(sdir)):
+        stale = {}
+        if kind == "stale_legacy":
+            for p in order:
+                cid = sc.chunk_id(p, case["grid"])
+                s, _ = morton.route(cid, params["preshift_bits"],
+                                    params["minishard_bits"],
+                                    params["shard_bits"])
+                stale.setdefault(s, {})[cid] = truth[p][::-1] + b"outdated"
+        for n, fn in enumerate(sorted(os.listdir(sdir))):
+            if kind != "legacy" and n % 2 != case["seed"] % 2:
+                if kind == "stale_legacy":
+                    sharded_spec.write_shard(sdir, params, int(fn[:-6], 16),
+                                             stale[int(fn[:-6], 16)],
+                                             legacy=True)
+                continue
             if fn.endswith(".shard"):
                 with open(os.path.join(sdir, fn), "rb") as f:
                     data = f.read()
@@ -131,7 +150,8 @@ def build_dataset(case, root):
 
 
 def is_sharded_kind(case):
-    return case["kind"] in ("shard", "legacy", "foreign")
+    return case["kind"] in ("shard", "legacy", "foreign", "legacy_some",
+                            "stale_legacy")
 
 
 def fetch_outcome(acc, key, cc):
